@@ -553,4 +553,47 @@ def judgeConsts (T : Ty) (k : Consts) : Complaints :=
     chk (k.digits == f.p) "C18" "DIGITS ≠ p" ++ chk (k.minExp == f.qmin) "C18" "MIN_10_EXP ≠ -bias" ++
     chk (k.maxExp == f.qmax) "C18" "MAX_10_EXP ≠ emax-p+1"
 
+/-! ## Additional judgements (each tags a clause of a property that the rules above judge under another property's tag) -/
+
+/-- C06, "accept exactly": a grammatical string answered with a syntax-class error is a wrongful rejection.  `streaming`:
+    the streaming entry point may also answer "buffer too small" (C14), the string entry point may not. -/
+def judgeGrammarReject (txt : List Nat) (streaming : Bool) (a : PAns) : Complaints :=
+  match parse txt, a with
+  | some _, .err f =>
+    chk (!(f.kind == "char" || f.kind == "end" || f.kind == "source" || f.kind == "other" || (f.kind == "buffer" && !streaming)))
+      "C06" s!"rejected a string of the grammar with a syntax error ({f.kind})"
+  | _, _ => []
+
+/-- C08, "agrees with the category the numeric conversions act on": any complaint about the conversion of an infinity or
+    a NaN is also a disagreement with the class IEEE assigns to the pattern -/
+def judgeClassAgree (bytes : List Nat) (cs : Complaints) : Complaints :=
+  match decode ⟨bytes.length / 4⟩ (ofLeBytes bytes) with
+  | .fin _ _ _ => []
+  | _ => if (cs.filter fun c => c.1 != "C05").isEmpty then [] else
+           [("C08", "the conversion does not act on the class IEEE assigns: " ++ (cs.headD ("", "")).2)]
+
+/-- exact test `c·10^e ≤ m·10^q` for naturals `c, m` and integers `e, q`, without building huge powers when the exponents
+    are far apart -/
+def leScaled (c : Nat) (e : Int) (m : Nat) (q : Int) : Bool :=
+  if c = 0 then true
+  else if m = 0 then false
+  else if e ≥ q then
+    let k := (e - q).toNat
+    if k > digits10 m then false else c * 10 ^ k ≤ m
+  else
+    let k := (q - e).toNat
+    if k > digits10 c then true else c ≤ m * 10 ^ k
+
+/-- C18, "every finite value of the type lies between MIN and MAX and, if non-zero, is at least MIN_POSITIVE in
+    magnitude": judged on the value the type's own `Display` prints for a bit pattern -/
+def judgeWithinLimits (T : Ty) (txt : List Nat) : Complaints :=
+  match T.fixedN, parse txt with
+  | some n, some (.finite _ i fr ex) =>
+    let f : Fmt := ⟨n⟩
+    let c := ofDigits (i ++ fr)
+    let e : Int := expValue ex - fr.length
+    chk (leScaled c e (10 ^ f.p - 1) f.qmax) "C18" "a finite value of the type prints as a magnitude above MAX" ++
+    chk (c == 0 || leScaled 1 f.qmin c e) "C18" "a non-zero finite value of the type prints as a magnitude below MIN_POSITIVE"
+  | _, _ => []
+
 end Decstr.Spec
